@@ -25,7 +25,7 @@ BUILT = {
          "Every common-syntax pattern up to the node bound x flag prefixes x inline flag atoms x all texts: every API (is_match, find, captures, iterators, split, splitn, replacen with templates/closure/NoExpand, group metadata) is compared value by value with regex::Regex built from the identical string. Plus every repeat bound N up to 1100 / 4200 (and width edges up to 70 000) and every cased Unicode scalar value under (?i) against the regex crate.",
          "Trusted oracle: the regex crate at the version of the repository's lock file. Known findings KF-F1 (class predicate, VM-compiled only) and KF-FLAG-SCOPE (hook switch H7) are attributed, everything else is a violation.", "DESIGN.md §5 C04"),
  "C05": (E1, "bounded-exhaustive enumeration of all search entry points over the unrestricted grammar and multi-byte texts (panic / span validity / termination oracle)",
-         "Every pattern of the unrestricted grammar (self-referential backreferences, empty loops, \\K/\\G anywhere, conditionals) x texts mixing 1-4 byte characters x every offset x every public search entry point; oracle: returns normally, every span valid and on char boundaries, iterators end within len+2 items. Plus the wide sweep (up to 38 groups) with every span validated.",
+         "Every pattern of the unrestricted grammar (self-referential backreferences, empty loops, \\K/\\G anywhere, conditionals) x texts mixing 1-4 byte characters x every offset x every public search entry point; oracle: returns normally, every span valid and on char boundaries, iterators end within len+2 items. Plus the wide sweep (up to 38 groups) with every span validated, an alternation-position family (a loop over 2..4 alternatives with the one nullable alternative in every position), and every cased Unicode scalar value through the iteration entry points under four ways of switching case-insensitivity on (spans on character boundaries).",
          "catch_unwind sees every panic; hook horizons (fuel, branch-stack cap) cut looping runs so that they are reported instead of waited for.", "DESIGN.md §5 C05"),
  "C06": (E1P, "exhaustive enumeration of token sequences up to a length bound (plus fixed probes and mutations), each compiled in an isolated worker under a counting allocator",
          "All token sequences up to length 3 (quick) / 4 (thorough, 8.6e7 strings) over a 99-token vocabulary plus depth/size probes and single-character mutations of valid patterns; oracle: Ok or Err, no panic (overflow checks on), error position <= length, long VM-compiled alternations and nested counted repeats among the probes, heap and wall-clock under explicit caps, the process survives.",
@@ -40,19 +40,19 @@ BUILT = {
          "Every pattern of the unrestricted space x texts x offsets: is_match <=> find <=> captures, captures.get(0) == find, captures_iter spans == find_iter spans in order; also on long regular texts of 32+ bytes (tall pass); every captures_iter item equals, group by group, a fresh search from the item's start; no reference model involved.",
          "None beyond rustc.", "DESIGN.md §5 C09"),
  "C10": (E1, "bounded-exhaustive enumeration of split/splitn histories (limits 0..5, polled past the end) against a model over the crate's own find_iter",
-         "Every pattern x all texts x limits 0..5: pieces are the gaps between consecutive find_iter matches, interleaving rebuilds the input, splitn yields min(n, pieces) items with the untouched remainder last; fusedness checked. Texts include 3- and 4-byte characters. Error histories under backtrack limits 0-2: split keeps one more piece than matches, exactly one Err.",
+         "Every pattern x all texts x limits 0..5: pieces are the gaps between consecutive find_iter matches, interleaving rebuilds the input, splitn yields min(n, pieces) items with the untouched remainder last; fusedness checked. Texts include 3- and 4-byte characters. Error histories under backtrack limits 0-2: split keeps one more piece than matches, exactly one Err. Every cased Unicode scalar value as a one-character separator built four ways (inline flag, RegexBuilder::case_insensitive on a plain and on a VM spelling) on every member of its fold orbit: split/splitn/replacen agree with restarted find_from_pos and the builds agree with each other.",
          "Oracle: split/splitn model over the crate's own find_iter (which C08 checks).", "DESIGN.md §5 C10"),
  "C11": (E1, "bounded-exhaustive enumeration of (pattern, text, limit, replacer) against a replacement model and a reference template expander",
          "Every pattern x texts x limits 0..3 x replacers (templates as &str/&String/Cow, NoExpand, closures): result equals the model (first n matches replaced by the reference expansion, other bytes copied), Borrowed iff no match, fast path == slow path, a limit error of any search is returned as Err (never swallowed), errors are Err not panics.",
          "Oracle: replacen model over the crate's own captures_iter; reference expander written from the documentation.", "DESIGN.md §5 C11"),
  "C12": (E1, "exhaustive enumeration of all templates up to a length bound x capture sets x expanders x entry points against a reference expander",
-         "All templates up to length 5 (quick) / 7 (thorough, 1.1e8) over a 14-character alphabet x 4 capture sets x both expanders x 5 entry points (which must agree) - write_expansion also into a writer that takes two bytes per call and into a full destination (must be an error) - against an independent implementation of the documented syntax; escape round-trip; check() accepts only valid references.",
+         "All templates up to length 5 (quick) / 7 (thorough, 1.1e8) over a 14-character alphabet x 4 capture sets x both expanders x 5 entry points (which must agree) - write_expansion also into a writer that takes two bytes per call and into a full destination (must be an error) - against an independent implementation of the documented syntax; every Unicode scalar value (all 1 112 064) directly after and inside a reference in four forms (which characters continue an identifier); escape round-trip; check() accepts only valid references.",
          "Oracle: frmc-core/src/expandref.rs, written from the doc comments only.", "DESIGN.md §5 C12"),
  "C13": (E1, "bounded-exhaustive enumeration; every static size fact checked against all lengths the reference matcher observes for that sub-expression over all texts",
          "Every pattern x every sub-expression: the all-paths span recorder of the reference matcher (over the public Expr tree) yields the set of lengths the node matches on all texts and starts; min_size / const_size (hook H2) must be sound; look-behinds showing two lengths must be rejected with LookBehindNotConst; look-behinds whose constant size is a large count N (every N up to 1100 / 4200) look back exactly N characters; a rejected look-behind stays rejected in hosts where it can never run; accepted look-behinds are compared with the reference on multi-byte texts.",
          "Observation is a lower approximation of 'can match', so the facts check cannot raise a false alarm. The parser-private \\n*$ atom of \\Z is exempt.", "DESIGN.md §5 C13"),
  "C14": (E1, "bounded-exhaustive metamorphic enumeration over builder options",
-         "Every mixed-case pattern (inner (?-i:..)/(?i:..) groups, fancy and plain) x texts over {a,A,b,B} x offsets: case_insensitive(true) == (?i) prefix, false == unset, ample limits change nothing; tiny delegate_size_limit must fail fancy hosts whose delegated piece fails as a plain pattern. Option == inline flag is also compared through is_match, find_iter, split and replace; backtrack_limit(usize::MAX) changes nothing; every cased Unicode scalar value under the builder option; all contexts x fillers.",
+         "Every mixed-case pattern (inner (?-i:..)/(?i:..) groups, fancy and plain) x texts over {a,A,b,B} x offsets: case_insensitive(true) == (?i) prefix, false == unset, ample limits change nothing; tiny delegate_size_limit must fail fancy hosts whose delegated piece fails as a plain pattern. Option == inline flag is also compared through is_match, find_iter, split and replace; backtrack_limit(usize::MAX) changes nothing; every cased Unicode scalar value under the builder option; all contexts x fillers; the option combined with each other builder option (alone and all at once, set before and after it) is still exactly (?i)P.",
          "No reference model.", "DESIGN.md §5 C14"),
  "C15": (E1, "bounded-exhaustive enumeration of conditional patterns x texts against a reference matcher",
          "Every pattern with a conditional (both forms, at every nesting position up to the node bound, plus conditional contexts x fillers) x all texts x offsets, span and groups against the reference. Run twice: groups numbered, and groups named a, b, ... (names that collide with literals in expression conditions).",
@@ -70,7 +70,7 @@ BUILT = {
          "Every pattern x T1-T6 respellings (free spacing, comments, named/relative references, flag scoping, escapes, possessive/atomic) at every applicable site: Expr::parse_tree results equal and captures identical on all texts and offsets.",
          "Whitespace is inserted only where the documentation defines it as insignificant. KF-FLAG-SCOPE attributed by hook switch H7.", "DESIGN.md §5 C19"),
  "C20": (E2, "explicit-state breadth-first search (stateright) over all operation sequences on the VM's real backtracking state against a whole-copy reference, plus a whole-copy shadow monitor inside real runs",
-         "All sequences of {Save, Push, Pop, BeginAtomic, EndAtomic} up to depth 10 (2 slots x 2 values) / 7 (3x3) in the quick tier, deeper in the thorough tier, on the crate's real vm::State in lock-step with a whole-state-copy reference; dense, sparse (slot indices [0,64], [1,33,65], ...) and long-frame (10-40 slots with Burst operations) configurations; searched twice and counts compared; the same discipline monitored inside millions of real vm::run executions.",
+         "All sequences of {Save, Push, Pop, BeginAtomic, EndAtomic} up to depth 10 (2 slots x 2 values) / 7 (3x3) in the quick tier, deeper in the thorough tier, on the crate's real vm::State in lock-step with a whole-state-copy reference; dense, sparse (slot indices [0,64], [1,33,65], ...) and long-frame (10-40 slots with Burst operations) configurations; searched twice and counts compared; the same discipline monitored inside millions of real vm::run executions; the observable side of a commit (an atomic construct lowered without any cut leaves a consistent state): every context with an atomic group, possessive quantifier or look-around x fillers x texts over {a,b} up to length 5/6 against the reference semantics.",
          "The VmState wrapper (hook H3) forwards to the private State methods without logic of its own.", "DESIGN.md §5 C20"),
 }
 
